@@ -7,6 +7,7 @@ def build(tier, seed):
     entries = [e for e in select(tier, exclude=("rawcb",)) if not e["decl"].absolute_positioning()]
     entries = [e for e in entries if "P" not in e["tags"] or tier != "quick"]
     if tier == "quick":
+        entries = [e for e in entries if "G" not in e["tags"]]
         entries = [e for e in entries if not ("marker" in e["tags"] and "sbl" in e["tags"])
                    or e["key"] in ("s_mark_ab_exc_2", "s_mark_nul_inc_1", "s_mark_aab_exc_4")]
     obs = []
